@@ -438,3 +438,45 @@ func (i *interpreter) mergeDiff(fr *frame, a, b *omap) *omap {
 	})
 	return out
 }
+
+func init() {
+	// (*structpb.Struct).UnmarshalJSON goes through protojson and the
+	// protobuf runtime's unsafe message state; the effect on a JSON object is
+	// what structpb.NewStruct builds from the decoded map.
+	externals["(*google.golang.org/protobuf/types/known/structpb.Struct).UnmarshalJSON"] = func(fr *frame, args []value) value {
+		i := fr.i
+		return i.jsonGuard(func() value {
+			data := args[1].([]value)
+			var tree iface
+			if len(data) == 1 {
+				if b, ok := data[0].(jsonBlob); ok {
+					tree = i.copyTree(b.tree)
+				}
+			}
+			if tree.t == nil {
+				tree = i.jsonBytesToTree(fr, bytesOf(fr, data, "JSON text"))
+			}
+			m, ok := tree.v.(*omap)
+			if !ok {
+				jsonFail("cannot unmarshal %s into a structpb.Struct", jsonKind(tree.v))
+			}
+			pkg := i.prog.ImportedPackage("google.golang.org/protobuf/types/known/structpb")
+			r := call(i, fr, token.NoPos, pkg.Func("NewStruct"), []value{m}).(tuple)
+			if e, _ := r[1].(iface); e.t != nil {
+				return r[1]
+			}
+			st := mustDeref(fr.fn.Signature.Recv().Type()).Underlying().(*types.Struct)
+			idx := -1
+			for k := 0; k < st.NumFields(); k++ {
+				if st.Field(k).Name() == "Fields" {
+					idx = k
+				}
+			}
+			src := (*r[0].(*value)).(structure)
+			dst := append(structure{}, (*args[0].(*value)).(structure)...)
+			dst[idx] = src[idx]
+			*args[0].(*value) = dst
+			return iface{}
+		}, func(e value) value { return e })
+	}
+}
